@@ -664,6 +664,23 @@ func genOpenVPN(t *rapid.T) pcase {
 	if withKey {
 		cfg["group_key"] = hex.EncodeToString(mx.OVPNKey.KeyBytes)
 	}
+	// the key direction says which half of the group key signs tls-auth packets (normal: the client signs with
+	// key[192:], inverse or bidirectional: with key[64:]); tls-crypt always uses the same halves, whatever it says
+	cfgDir := ""
+	if withKey && rapid.Bool().Draw(t, "withDirection") {
+		cfgDir = pick(t, "direction", "normal", "inverse", "bidi", "Bidirectional", "INVERSE", "Normal")
+		cfg["group_key_direction"] = cfgDir
+	}
+	dirKey := func(k *l4openvpn.StaticKey, dir string) *l4openvpn.StaticKey {
+		d := strings.ToLower(dir)
+		return &l4openvpn.StaticKey{KeyBytes: k.KeyBytes, Inverse: d == "inverse", Bidi: strings.HasPrefix(d, "bidi")}
+	}
+	half := func(dir string) int {
+		if d := strings.ToLower(dir); d == "" || d == "normal" {
+			return 192
+		}
+		return 64
+	}
 	ignoreTS := rapid.Bool().Draw(t, "ignoreTimestamp")
 	if ignoreTS {
 		cfg["ignore_timestamp"] = true
@@ -730,7 +747,11 @@ func genOpenVPN(t *rapid.T) pcase {
 			digestFilter = pick(t, "digestName", "SHA-256", "SHA-1", "MD5", "SHA-512")
 			cfg["auth_digest"] = digestFilter
 		}
-		msg = mx.OVPNAuth(session, ad, key, 0, replay, ts, 0, 0, 0)
+		clientDir := cfgDir
+		if rapid.IntRange(0, 2).Draw(t, "otherDirection") == 0 {
+			clientDir = pick(t, "clientDirection", "normal", "inverse", "bidi")
+		}
+		msg = mx.OVPNAuth(session, ad, dirKey(key, clientDir), 0, replay, ts, 0, 0, 0)
 		df := l4openvpn.AuthDigestFindByName(digestFilter)
 		switch {
 		case !accepts("auth"):
@@ -750,6 +771,8 @@ func genOpenVPN(t *rapid.T) pcase {
 			c.want, c.why = mustNot, "HMAC was made with another group key"
 		case withKey && df != nil && df != ad:
 			c.want, c.why = mustNot, "HMAC was made with another digest of the same size"
+		case withKey && half(clientDir) != half(cfgDir):
+			c.want, c.why = mustNot, fmt.Sprintf("HMAC was made with the other half of the group key (client direction %q, configured %q)", clientDir, cfgDir)
 		default:
 			c.want, c.why = must, "tls-auth hard reset signed as configured"
 			if modes != nil && inList(modes, "crypt") && ad.Size == 32 && !withKey {
@@ -789,7 +812,7 @@ func genOpenVPN(t *rapid.T) pcase {
 				c.want, c.why = mustNot, "encrypted and signed with another group key"
 			}
 		default:
-			c.want, c.why = must, "tls-crypt hard reset made with the configured key"
+			c.want, c.why = must, fmt.Sprintf("tls-crypt hard reset made with the configured key (configured direction %q does not apply to tls-crypt)", cfgDir)
 		}
 	}
 	if tcp {
